@@ -12,27 +12,32 @@ Record hist := mkHist {
   h_paused : bool;            (* the last successful pause/unpause was a pause *)
   h_listed : addr -> bool;    (* the last successful list change of the address put it on the list *)
   h_armed : bool;             (* an upgrade succeeded since the last successful migration *)
-  h_mgr : addr -> bool        (* the last successful grant/revoke/renounce of "manager" for the address was a grant
+  h_mgr : addr -> bool;       (* the last successful grant/revoke/renounce of "manager" for the address was a grant
                                  (constructor: the manager argument) *)
+  h_lu : addr -> addr -> Z    (* live_until_ledger of the last successful approve(owner, spender) (0 if none) *)
 }.
 
 Definition hist0 (c : cfg) : hist :=
   mkHist (now0 c) false
          (match knd c with KAllowEx => fun a => N.eqb a (owner c) | _ => fun _ => false end)  (* the constructor allows the admin *)
          false
-         (fun a => N.eqb a (manager c)).
+         (fun a => N.eqb a (manager c))
+         (fun _ _ => 0).
 
 Definition hist_upd (h : hist) (o : op) : hist :=
   match o with
-  | Advance n => mkHist (h_now h + n) (h_paused h) (h_listed h) (h_armed h) (h_mgr h)
-  | Pause _ => mkHist (h_now h) true (h_listed h) (h_armed h) (h_mgr h)
-  | Unpause _ => mkHist (h_now h) false (h_listed h) (h_armed h) (h_mgr h)
-  | AllowUser u _ | BlockUser u _ => mkHist (h_now h) (h_paused h) (updB (h_listed h) u true) (h_armed h) (h_mgr h)
-  | DisallowUser u _ | UnblockUser u _ => mkHist (h_now h) (h_paused h) (updB (h_listed h) u false) (h_armed h) (h_mgr h)
-  | Upgrade _ _ | LibEnable => mkHist (h_now h) (h_paused h) (h_listed h) true (h_mgr h)
-  | Migrate _ _ | LibComplete => mkHist (h_now h) (h_paused h) (h_listed h) false (h_mgr h)
-  | GrantManager a _ => mkHist (h_now h) (h_paused h) (h_listed h) (h_armed h) (updB (h_mgr h) a true)
-  | RevokeManager a _ | RenounceManager a => mkHist (h_now h) (h_paused h) (h_listed h) (h_armed h) (updB (h_mgr h) a false)
+  | Advance n => mkHist (h_now h + n) (h_paused h) (h_listed h) (h_armed h) (h_mgr h) (h_lu h)
+  | Pause _ => mkHist (h_now h) true (h_listed h) (h_armed h) (h_mgr h) (h_lu h)
+  | Unpause _ => mkHist (h_now h) false (h_listed h) (h_armed h) (h_mgr h) (h_lu h)
+  | AllowUser u _ | BlockUser u _ => mkHist (h_now h) (h_paused h) (updB (h_listed h) u true) (h_armed h) (h_mgr h) (h_lu h)
+  | DisallowUser u _ | UnblockUser u _ => mkHist (h_now h) (h_paused h) (updB (h_listed h) u false) (h_armed h) (h_mgr h) (h_lu h)
+  | Upgrade _ _ | LibEnable => mkHist (h_now h) (h_paused h) (h_listed h) true (h_mgr h) (h_lu h)
+  | Migrate _ _ | LibComplete => mkHist (h_now h) (h_paused h) (h_listed h) false (h_mgr h) (h_lu h)
+  | Approve ow sp _ lu =>
+      mkHist (h_now h) (h_paused h) (h_listed h) (h_armed h) (h_mgr h)
+             (fun x y => if N.eqb x ow && N.eqb y sp then lu else h_lu h x y)
+  | GrantManager a _ => mkHist (h_now h) (h_paused h) (h_listed h) (h_armed h) (updB (h_mgr h) a true) (h_lu h)
+  | RevokeManager a _ | RenounceManager a => mkHist (h_now h) (h_paused h) (h_listed h) (h_armed h) (updB (h_mgr h) a false) (h_lu h)
   | _ => h
   end.
 
@@ -49,15 +54,16 @@ Record view := mkView {
 (* ------------------------------------------------------------------ *)
 Definition pausable_op (o : op) : bool :=
   match o with
-  | Transfer _ _ _ | TransferFrom _ _ _ _ | Burn _ _ | BurnFrom _ _ _ | Mint _ _ | WhenNotPaused => true
+  | Transfer _ _ _ | TransferMux _ _ _ _ | TransferFrom _ _ _ _ | Burn _ _ | BurnFrom _ _ _ | Mint _ _ | WhenNotPaused => true
   | _ => false
   end.
-Definition is_paus (k : kind) : bool := match k with KPaus | KPausLib => true | _ => false end.
+Definition is_paus (k : kind) : bool := match k with KPaus | KPausEx | KPausLib => true | _ => false end.
 
 (* the parties an allow/block-listed token must vet (the spender deliberately not) *)
 Definition vetted (o : op) : list addr :=
   match o with
   | Transfer f t _ => [f; t]
+  | TransferMux f t _ _ => [f; t]                  (* the underlying address of the muxed receiver *)
   | TransferFrom _ f t _ => [f; t]
   | Approve ow _ _ _ => [ow]
   | Burn f _ => [f]
@@ -132,11 +138,17 @@ Definition expected_ok (c : cfg) (h : hist) (v : view) (cl : call) : bool :=
   match fst cl with
   | Advance n => negb (n <? 0)
   | Pause caller =>
-      ((kind_eqb k KPaus && has_auth au caller && N.eqb (owner c) caller) || kind_eqb k KPausLib) && negb (h_paused h)
+      (((kind_eqb k KPaus || kind_eqb k KPausEx) && has_auth au caller && N.eqb (owner c) caller) || kind_eqb k KPausLib)
+      && negb (h_paused h)
   | Unpause caller =>
-      ((kind_eqb k KPaus && has_auth au caller && N.eqb (owner c) caller) || kind_eqb k KPausLib) && h_paused h
-  | WhenNotPaused => kind_eqb k KPausLib && negb (h_paused h)
-  | WhenPaused => kind_eqb k KPausLib && h_paused h
+      (((kind_eqb k KPaus || kind_eqb k KPausEx) && has_auth au caller && N.eqb (owner c) caller) || kind_eqb k KPausLib)
+      && h_paused h
+  | WhenNotPaused => (kind_eqb k KPausEx || kind_eqb k KPausLib) && negb (h_paused h) && (v_supply v + 1 <=? MAXI32)
+  | WhenPaused => (kind_eqb k KPausEx || kind_eqb k KPausLib) && h_paused h
+  | TransferMux f t _ a =>
+      let o := Transfer f t a in
+      has_entry k o && gate_open c h v o && base_ok c h v au o
+      && implies (kind_eqb k KPaus && is_mint o) (has_auth au (owner c))
   | AllowUser _ operator | DisallowUser _ operator =>
       (kind_eqb k KAllowEx && h_mgr h operator && has_auth au operator) || kind_eqb k KAllowLib
   | BlockUser _ operator | UnblockUser _ operator =>
@@ -144,7 +156,8 @@ Definition expected_ok (c : cfg) (h : hist) (v : view) (cl : call) : bool :=
   | SetCap x => kind_eqb k KCapLib && negb (x <? 0)
   | Upgrade w operator =>
       (kind_eqb k KUpgV1 || kind_eqb k KUpgV2) && has_auth au operator && N.eqb operator (owner c) && w
-  | Migrate _ operator => kind_eqb k KUpgV2 && has_auth au operator && N.eqb operator (owner c) && h_armed h
+  | Migrate _ operator =>
+      (kind_eqb k KUpgV1 || kind_eqb k KUpgV2) && has_auth au operator && N.eqb operator (owner c) && h_armed h
   | LibEnable | LibComplete => kind_eqb k KUpgLib
   | LibEnsure => kind_eqb k KUpgLib && h_armed h
   | GrantManager _ caller => (kind_eqb k KAllowEx || kind_eqb k KBlockEx) && has_auth au caller && N.eqb caller (owner c)
@@ -161,11 +174,13 @@ Definition exp_supply (v : view) (o : op) : Z :=
   match o with
   | Mint _ a => v_supply v + a
   | Burn _ a | BurnFrom _ _ a => v_supply v - a
+  | WhenNotPaused => v_supply v + 1
+  | WhenPaused => 0
   | _ => v_supply v
   end.
 Definition exp_bal (v : view) (o : op) (x : addr) : Z :=
   match o with
-  | Transfer f t a | TransferFrom _ f t a =>
+  | Transfer f t a | TransferFrom _ f t a | TransferMux f t _ a =>
       let b1 := fun y => if N.eqb y f then v_bal v f - a else v_bal v y in
       if N.eqb x t then b1 t + a else b1 x
   | Burn f a | BurnFrom _ f a => if N.eqb x f then v_bal v f - a else v_bal v x
@@ -187,7 +202,7 @@ Definition exp_data (v : view) (o : op) : option Z := match o with Migrate d _ =
 Definition in_uni (c : cfg) (a : addr) : bool := (N.to_nat a <? na c)%nat.
 Definition wf_op (c : cfg) (o : op) : bool :=
   match o with
-  | Transfer f t _ => in_uni c f && in_uni c t
+  | Transfer f t _ | TransferMux f t _ _ => in_uni c f && in_uni c t
   | TransferFrom sp f t _ => in_uni c sp && in_uni c f && in_uni c t
   | Approve ow sp _ _ => in_uni c ow && in_uni c sp
   | Burn f _ => in_uni c f
@@ -196,4 +211,4 @@ Definition wf_op (c : cfg) (o : op) : bool :=
   | _ => true
   end.
 Definition wf_call (c : cfg) (cl : call) : bool := wf_op c (fst cl).
-Definition wf_cfg (c : cfg) : bool := (0 <=? now0 c) && (1 <=? max_ttl c).
+Definition wf_cfg (c : cfg) : bool := (0 <=? now0 c) && (1 <=? max_ttl c) && ctor_ok c.
